@@ -61,19 +61,21 @@ class Recorder:
         self.net.on_recv_hook = self._on_recv
         self.net.on_send_hook = self._on_send
         self.lookups: Dict[int, Any] = {}
+        self.srcs: Dict[str, int] = {}
 
     def ev(self, _ev: str, **kw: Any) -> dict:
-        e = {'ev': _ev, 't': self.net.now()}
+        e = {'ev': _ev, 't': self.net.now(), 'seq': self.net._seq}
         e.update(kw)
         self.events.append(e)
         return e
 
     def _on_recv(self, e: dict, data: bytes) -> None:
         did = self.did.setdefault(data, len(self.did) + 1)
+        src = self.srcs.setdefault(str(e.get('src')), len(self.srcs) + 1)
         try:
             m = wire.parse(data)
         except wire.WireError:
-            self.ev('recv', did=did, q=True, qu=False, items=[], hq=[], hka=[])
+            self.ev('recv', did=did, q=True, qu=False, items=[], hq=[], hka=[], tcq=False, src=src)
             return
         if m.is_response:
             items = []
@@ -82,7 +84,7 @@ class Recorder:
                     i = self.voc.by_key.get((low(r.name.text), low(r.rd)), 0)
                     if i:
                         items.append({'id': i, 'ttl': r.ttl, 'fl': False})
-            self.ev('recv', did=did, q=False, qu=False, items=items, hq=[], hka=[])
+            self.ev('recv', did=did, q=False, qu=False, items=items, hq=[], hka=[], tcq=False, src=src)
         else:
             qu = any(q.cls & 0x8000 for q in m.questions)
             hq = [{'ty': TYPE_ID.get(low(q.name.text), 0), 'qu': bool(q.cls & 0x8000)} for q in m.questions
@@ -94,7 +96,7 @@ class Recorder:
                         hka.append(self.voc.by_key.get((low(r.name.text), low(r.rd)), 0) or 9999)
                     else:
                         hka.append(9999)
-            self.ev('recv', did=did, q=True, qu=qu, items=[], hq=hq, hka=hka, tcq=m.tc)
+            self.ev('recv', did=did, q=True, qu=qu, items=[], hq=hq, hka=hka, tcq=m.tc, src=src)
 
     def _on_send(self, e: dict, data: bytes) -> None:
         try:
@@ -163,7 +165,7 @@ class Recorder:
         for (i, ttl) in st.get('ka', []):
             t, _ = self.voc.ids[i]
             ans.append((t, wire.T_PTR, 1, ttl, self.voc.spelled(i, st.get('sp', 0))))
-        return wire.build(id_=st.get('qid', 0), flags=0, questions=qs, answers=ans)
+        return wire.build(id_=st.get('qid', 0), flags=0x0200 if st.get('tc') else 0, questions=qs, answers=ans)
 
     async def main(self) -> None:
         net = self.net
@@ -198,13 +200,13 @@ class Recorder:
 
     def run(self) -> dict:
         self.net.run(self.main(), limit_ms=self.sc.get('limit_ms', 72 * 3600 * 1000))
-        rands = [e for e in self.net.log if e['ev'] == 'rand' and e['site'] in ('first', 'lookup')]
+        rands = [e for e in self.net.log if e['ev'] == 'rand' and e['site'] in ('first', 'lookup', 'tc')]
         if rands:
             # merge by time: a rand event goes right after the last trace event that is not later than it
             merged: List[dict] = []
             ri = 0
             for evn in self.events:
-                while ri < len(rands) and rands[ri]['t'] < evn['t']:
+                while ri < len(rands) and (rands[ri]['t'] < evn['t'] or (rands[ri]['t'] == evn['t'] and rands[ri]['seq'] < evn.get('seq', 0))):
                     merged.append({'ev': 'rand', 't': rands[ri]['t'], 'site': rands[ri]['site'], 'v': rands[ri]['v']})
                     ri += 1
                 merged.append(evn)
@@ -344,7 +346,8 @@ def gen_c13_bigcache(rng: random.Random, sid: str, thorough: bool = False) -> di
         steps += [{'op': 'at', 't': bs}, {'op': 'bstart', 'types': [T1, T2] if rng.random() < 0.5 else [T1], 'delay': 10000,
                                         'forced': rng.choice(['none', 'none', 'QM', 'QU'])}]
     steps.append({'op': 'at', 't': bs + 16000})
-    return with_group(rng, {'id': sid, 'n1': n1, 'n2': n2, 'seed': rng.randint(0, 10 ** 9), 'steps': steps, 'rand': {'first': r}})
+    return with_group(rng, {'id': sid, 'n1': n1, 'n2': n2, 'seed': rng.randint(0, 10 ** 9), 'steps': steps,
+                            'rand': {'first': r, 'tc': 437}})
 
 
 def gen_c13_suppress(rng: random.Random, sid: str, thorough: bool = False) -> dict:
@@ -374,10 +377,38 @@ def gen_c13_suppress(rng: random.Random, sid: str, thorough: bool = False) -> di
             ka = list(cached)
         else:
             ka = list(cached) + [n1]            # id n1 is never taught: a known answer this host does not know
-        evs.append((tq, {'op': 'query', 'types': [T1], 'qu': rng.random() < 0.15, 'qid': rng.randint(0, 65535),
-                         'ka': [(i, rng.choice([1125, 4000, 4500])) for i in ka], 'sp': rng.randint(0, 2)}))
+        kal = [(i, rng.choice([1125, 4000, 4500])) for i in ka]
+        if rng.random() < 0.35:
+            # the known-answer list comes as a truncated train: the question and a first part with the TC bit, then packets
+            # with more known answers; the last one without TC (answered at once) or with it (answered when the 437 ms hold
+            # runs out).  The instant that counts for the history is the arrival of the last packet: tq.
+            rng.shuffle(kal)
+            npk = rng.choice([2, 2, 3])
+            cuts = sorted(rng.sample(range(0, len(kal) + 1), min(npk - 1, len(kal) + 1)))
+            parts = [kal[a:b] for a, b in zip([0] + cuts, cuts + [len(kal)])]
+            while len(parts) < npk:
+                parts.append([])
+            src = rng.choice(['10.0.0.31', '10.0.0.32'])
+            last_tc = rng.random() < 0.5
+            while (tq + 437) in due:
+                tq += 1
+            times = sorted(tq - rng.choice([0, 1, 50, 200, 390]) * (npk - 1 - j) for j in range(npk))
+            times[-1] = tq
+            qid = rng.randint(0, 65535)
+            for j, part in enumerate(parts):
+                evs.append((times[j], {'op': 'query', 'types': [T1] if j == 0 else [], 'qu': False, 'qid': qid + j, 'ka': part,
+                                       'sp': rng.randint(0, 2), 'tc': j < npk - 1 or last_tc, 'src': src}))
+        else:
+            evs.append((tq, {'op': 'query', 'types': [T1], 'qu': rng.random() < 0.15, 'qid': rng.randint(0, 65535),
+                             'ka': kal, 'sp': rng.randint(0, 2)}))
+    evs.sort(key=lambda x: x[0])
+    # the hold of a truncated query is scripted (437 ms): no other step of the scenario and no start-up query may fall on the
+    # instant it runs out (which of two timers of one instant fires first is not specified)
+    holds = {tt + 437 for (tt, st) in evs if st.get('tc')}
+    evs = [((tt + 1) if tt in holds else tt, st) for (tt, st) in evs]
     evs.sort(key=lambda x: x[0])
     for (tt, st) in evs:
         steps += [{'op': 'at', 't': tt}, st]
     steps.append({'op': 'at', 't': bs + 16000})
-    return with_group(rng, {'id': sid, 'n1': n1, 'n2': n2, 'seed': rng.randint(0, 10 ** 9), 'steps': steps, 'rand': {'first': r}})
+    return with_group(rng, {'id': sid, 'n1': n1, 'n2': n2, 'seed': rng.randint(0, 10 ** 9), 'steps': steps,
+                            'rand': {'first': r, 'tc': 437}})
